@@ -260,6 +260,11 @@ def main(argv=None) -> int:
     seed2 = ('pattern (∃ x0 . x0)', 'publish', 'pattern (phi0 -> phi0)', 'publish', 'next phase',
              'pattern (∃ x0 . x0)', 'publish', 'pattern (phi0 -> phi0)', 'publish', 'next phase')
     run_bfs(chk, rules, 5 if thorough else 4, (5, 4, 14), agg, 'both-claims-provable-seed/rules', seeds=(seed2,))
+    # two saved terms that PRINT alike (constraints are not printed) and are loaded one after the other: labels passed to
+    # save/load are built from the printed form, as the toolkit's own callers do
+    twins = ('metavar 0', 'save', 'pop', 'metavar 0 e_fresh x0', 'save', 'pop')
+    run_bfs(chk, ['load 0', 'load 1', 'pop', 'implies', 'save', 'metavar 0', 'metavar 0 e_fresh x0'], 4 if thorough else 3, (5, 4, 14), agg,
+            'print-twins-in-memory', seeds=(twins,))
     capacity_histories(chk, agg)
     chk.set('states', agg.get('states', 0))
     chk.set('transitions', agg.get('transitions', 0))
